@@ -196,7 +196,7 @@ def spec_mutants(chk):
     def one(m):
         return m, tlc.run('Lro', base.replace('Mutant = "none"', f'Mutant = "{m}"'), deadlock=False, workers=2, timeout=600)
     out = {}
-    with ThreadPoolExecutor(5) as ex:
+    with ThreadPoolExecutor(len(MUTANTS)) as ex:
         for m, r in ex.map(one, MUTANTS):
             out[m] = r.violated
             if r.ok or not (r.violated or '').startswith('Inv_'):
@@ -237,8 +237,8 @@ def main(chk, args):
                 seen |= tags
                 corners.append(k)
         rest = [k for k in futs if k not in corners]
-        pick = fails + corners + rnd.sample(rest, min(len(rest), 14)) + \
-            [k for k in plains if 'ann=0' in k] + rnd.sample([k for k in plains if 'ann=1' in k], 6)
+        pick = fails + corners + rnd.sample(rest, min(len(rest), 8)) + \
+            [k for k in plains if 'ann=0' in k] + rnd.sample([k for k in plains if 'ann=1' in k], 3)
         keys = sorted(set(pick))
         chk.exhaustive = False
     jobs = []
@@ -298,9 +298,9 @@ def main(chk, args):
             chk.violation(gkey, '; '.join(diffs), dict(case=c0, api=concretise(c0, job['experimental']),
                                                         observed={k: v for k, v in obs.items() if k != 'runs'}))
         if obs['driver_error']:
-            # the emitted library could not be driven at all (import error, ...): a verdict about the emitted code
-            chk.violation('run:' + obs['gid'] + '/driver', 'emitted library could not be executed: ' + obs['driver_error'][-1200:],
-                          dict(case=c0, api=concretise(c0, job['experimental'])))
+            # import / construction failures of the emitted client are recorded by the driver as `crash` events;
+            # a driver that dies is a harness problem, not a verdict
+            raise core.MachineryError(f"lro driver failed for {obs['gid']}:\n" + obs['driver_error'])
         g = gen_event(obs)
         cdict = dict(ann=c0['ann'], out=c0['out'], rsp=c0['rsp'], mta=c0['mta'])
         if not job['runs'] or obs['gen'] == 'fail':
@@ -309,6 +309,8 @@ def main(chk, args):
             tmeta.append((gkey, c0, obs))
             continue
         versions = obs.get('versions') or versions
+        if {r['id'] for r in obs['runs']} != {r['id'] for r in job['runs']}:
+            raise core.MachineryError(f"lro driver returned {len(obs['runs'])} of {len(job['runs'])} runs for {obs['gid']}")
         for run in obs['runs']:
             c, tr = expect[(obs['gid'], run['id'])]
             rkey = 'run:' + ('carrier:' if job['experimental'] else '') + run_key(c, tr)
